@@ -358,12 +358,21 @@ func GetRulePatterns(ctx *Context, rule map[string]interface{}) []map[string]int
 	if !have {
 		return nil
 	}
-	when := eventPattern.(map[string]interface{})
+	when, ok := eventPattern.(map[string]interface{})
+	if !ok {
+		// Not a usable 'when'.  A fact with a "rule" property
+		// doesn't have to contain a valid rule.
+		return nil
+	}
 	events := make([]map[string]interface{}, 0, 1)
 	p, fromQuery := when["pattern"]
 	// ToDo: Better type processing.
 	if fromQuery {
-		events = append(events, p.(map[string]interface{}))
+		pm, ok := p.(map[string]interface{})
+		if !ok {
+			return nil
+		}
+		events = append(events, pm)
 	} else {
 		events = append(events, when)
 	}
